@@ -319,8 +319,24 @@ func TestPropMatrixInterpolation(t *testing.T) {
 		// a matrix for which the permutation is valid; its strings carry tokens too
 		if nd > 0 || rapid.Bool().Draw(t, "emptymatrix") {
 			m := &pipeline.Matrix{Setup: pipeline.MatrixSetup{}}
+			// the permutation is valid either as a combination of setup values, or - one case in three -
+			// only through an adjustment that brings in a value the setup does not list
+			viaAdjustment := nd > 0 && rapid.IntRange(0, 2).Draw(t, "viaadj") == 0
 			for d, v := range perm {
-				m.Setup[d] = []string{c.str("setupval"), v}
+				// value lists built with append keep spare capacity, like any list a program builds
+				l := make([]string, 0, 2+rapid.IntRange(0, 3).Draw(t, "spare"))
+				l = append(l, c.str("setupval")+"#1", "zz"+c.str("setupval2"))
+				if !viaAdjustment {
+					l = append(l[:1:cap(l)], v, l[1])
+				}
+				m.Setup[d] = l
+			}
+			if viaAdjustment {
+				w := pipeline.MatrixAdjustmentWith{}
+				for d, v := range perm {
+					w[d] = v
+				}
+				m.Adjustments = append(m.Adjustments, &pipeline.MatrixAdjustment{With: w})
 			}
 			if rapid.Bool().Draw(t, "adj") && nd > 0 {
 				w := pipeline.MatrixAdjustmentWith{}
